@@ -6,7 +6,8 @@ from concurrent.futures import ThreadPoolExecutor
 D = "/verif/seeded_harmless"
 MAP = [("common/parse.rs", ["C02", "C03"]), ("common/reference.rs", ["C05", "C06"]), ("common/path.rs", ["C12", "C09", "C16"]),
        ("common/path_mut.rs", ["C10", "C09"]), ("common/authority_mut.rs", ["C11"]), ("utils.rs", ["C05"]), ("common/authority.rs", ["C03"]),
-       ("src/uri/", ["C13"]), ("src/iri/", ["C13"])]
+       ("src/uri/", ["C13", "C07", "C08"]), ("src/iri/", ["C13", "C07", "C08"])]
+ONLY = sys.argv[1:]
 def one(pf):
     txt = open(pf).read()
     props = []
@@ -28,7 +29,7 @@ def one(pf):
         shutil.rmtree(mut, ignore_errors=True)
 bad = 0
 with ThreadPoolExecutor(max_workers=int(os.environ.get("JOBS", "2"))) as ex:
-    for name, res in ex.map(one, sorted(glob.glob(os.path.join(D, "*.diff")))):
+    for name, res in ex.map(one, [f for f in sorted(glob.glob(os.path.join(D, "*.diff"))) if not ONLY or any(o in f for o in ONLY)]):
         flag = "  <-- ALARM" if any(v == 1 for v in res.values() if isinstance(v, int)) else ""
         bad += bool(flag)
         print(name, res, flag, flush=True)
